@@ -293,11 +293,12 @@ class Ctx:
         seen.add(path)
         print(f'VIOLATION property={self.prop} replay={path}')
         print(f'  {sig}: {detail}')
-      counts = {}
-      for sig, _, _ in self.violations:
+      counts, first = {}, {}
+      for sig, det, _ in self.violations:
         counts[sig] = counts.get(sig, 0) + 1
+        first.setdefault(sig, det)
       for sig, n in sorted(counts.items(), key=lambda kv: -kv[1])[:40]:
-        print(f'  [{n:6d}] {sig}')
+        print(f'  [{n:6d}] {sig}  e.g. {first[sig][:260]}')
       print(f'{self.prop}: {len(self.violations)} violation(s); states={states} '
             f'replayed={self.replayed} traces={self.traces}')
       return 1
